@@ -12,6 +12,7 @@ import (
 
 	"seehuhn.de/go/postscript/funit"
 	"seehuhn.de/go/sfnt"
+	"seehuhn.de/go/sfnt/cff"
 	"seehuhn.de/go/sfnt/glyf"
 	"seehuhn.de/go/sfnt/glyph"
 	"verif/harness/fontcmp"
@@ -180,12 +181,60 @@ func checkFixedPoint(t interface{ Fatalf(string, ...any) }, b []byte, what strin
 	return true
 }
 
+// editInPlace changes the font value in place without replacing any object:
+// every advance width grows by one unit, CFF path coordinates move one unit
+// towards zero, the ascent grows by one.  It returns the number of edits.
+// Anything the writers remember about a font (or glyph) they have written
+// before is stale afterwards.
+func editInPlace(f *sfnt.Font) int {
+	n := 0
+	switch o := f.Outlines.(type) {
+	case *glyf.Outlines:
+		for i := range o.Widths {
+			if o.Widths[i] > 0 && o.Widths[i] < 32000 {
+				o.Widths[i]++
+				n++
+			}
+		}
+	case *cff.Outlines:
+		for _, g := range o.Glyphs {
+			if g.Width > 0 && g.Width < 32000 {
+				g.Width++
+				n++
+			}
+			for i := range g.Cmds {
+				if g.Cmds[i].Op == cff.OpHintMask || g.Cmds[i].Op == cff.OpCntrMask {
+					continue
+				}
+				for j, a := range g.Cmds[i].Args {
+					if a > 0 {
+						g.Cmds[i].Args[j] = a - 1
+					} else {
+						g.Cmds[i].Args[j] = a + 1
+					}
+					n++
+				}
+			}
+		}
+	}
+	if f.Ascent < 32000 {
+		f.Ascent++
+		n++
+	}
+	return n
+}
+
 func TestC01Value(t *testing.T) {
 	o := opts()
 	rapid.Check(t, func(t *rapid.T) {
 		c := genfont.Gen(o).Draw(t, "font")
 		b := checkValue(t, c)
 		checkFixedPoint(t, b, "written font")
+		if rapid.Bool().Draw(t, "secondRound") && editInPlace(c.Font) > 0 {
+			// the same font object, edited in place, written and read again
+			c.Labels = append(c.Labels, "second-round-after-in-place-edit")
+			checkValue(t, c)
+		}
 		stats.CaseIn("value", stats.Hash(b), c.NonTrivial, func() string { return c.String() }, c.Labels...)
 	})
 }
